@@ -143,6 +143,27 @@ def sweep(fx, R):
             else:
                 R.undecided('H1', inst, 'a namespace-scope variable is filled from this object\'s state; how it is read back was not followed')
 
+    # H1, ambient form: `errno` is per-thread state that ANY earlier library call may have set; a function that tests it without having cleared it first answers according to what the thread did before
+    for f in sorted(fns, key=lambda f: f['q']):
+        if f.get('body') is None or f['body'].get('k') != 'Compound':
+            continue
+        def is_errno(n):
+            n = strip_casts(n) if n is not None else {}
+            return n.get('k') == 'Un' and n.get('op') == '*' and strip_casts(n.get('e') or {}).get('k') == 'Call' and (strip_casts(n['e']).get('fn') or '').endswith('__errno_location')
+        cleared = False
+        for stm in f['body']['s']:
+            reads = [y for y in walk(stm) if isinstance(y, dict) and is_errno(y)]
+            stores = [y for y in walk(stm) if isinstance(y, dict) and y.get('k') == 'Bin' and y.get('op') == '=' and is_errno(y.get('l'))]
+            if stores and stm.get('k') == 'Expr':
+                cleared = True
+                continue
+            if reads and not cleared:
+                found += 1
+                R.violated('H1', '%s:ambient:errno' % f['q'].split('(')[0], '%s() tests errno (`%s`) without having cleared it in this call: errno is per-thread state that any EARLIER library call of the application may '
+                           'have left set (an exp() that underflowed, a strtod() out of range, a log(0)), and the functions called here only ever set it, never reset it - from that moment on the result does not '
+                           'depend on the arguments and on the object alone' % (f['name'], pp(stm.get('c') or stm.get('e') or stm)[:90]), fx.rel(stm.get('loc') or f['loc']), 'E-PURE')
+                break
+
     def base_member(e):
         e = strip_casts(e) if e is not None else None
         for _ in range(6):
